@@ -124,7 +124,7 @@ Expand(t, k, expected) ==
   LET win == Win(k)
       hwin == HWin(k)
       cand == NAdd(NSub(expected, ModWin(expected, k)), t)
-  IN IF NLe(hwin, expected) /\ NLe(cand, NSub(expected, hwin)) /\ NLt(cand, NSub(<<M31, 0>>, win))
+  IN IF NLe(hwin, expected) /\ NLe(cand, NSub(expected, hwin)) /\ NLe(cand, NSub(NMax, win))
        THEN NAdd(cand, win)
      ELSE IF NLt(NAdd(expected, hwin), cand) /\ NLe(win, cand) THEN NSub(cand, win)
      ELSE cand
@@ -291,7 +291,7 @@ AckFrame(largest, delay, first, gl, ecn) ==
 IntIds == <<1, 3, 4, 5, 6, 7, 8, 9, 10, 11, 14>>
 IntDefault == <<0, 65527, 0, 0, 0, 0, 0, 0, 3, 25, 2>>
 IdGrease == 10930                                  \* 0x2ab2
-IdMinAckDelay == <<1, 2131943963>>                 \* 0xff04de1b
+IdMinAckDelay == <<1, 2131025435>>                 \* 0xff04de1b
 TpDefault == [ints |-> [i \in 1..11 |-> N(IntDefault[i])], dam |-> FALSE, grease |-> FALSE, mdfs |-> <<>>,
               mad |-> <<>>, iscid |-> <<>>, odcid |-> <<>>, rscid |-> <<>>, srt |-> <<>>, pa |-> <<>>]
 IntIndex(id) == CHOOSE i \in 1..11 : IntIds[i] = id
@@ -308,43 +308,58 @@ DecPrefAddr(v) ==      \* v = the parameter value
                      v6 |-> IF AllZero(ip6) /\ p6 = 0 THEN <<>> ELSE <<ip6, p6>>,
                      cid |-> SubSeq(v, 26, 25 + cl), srt |-> SubSeq(v, 26 + cl, Len(v))]]
 
-\* One parameter applied to the accumulator: [ok, tp, seen (ids met), lax].  `lax` marks inputs
-\* whose treatment the RFC leaves open (a repeated parameter: "SHOULD" be an error, 7.4).
-TpApply(tp, id, v) ==
-  LET var == DecVar(v, 1)
-      whole == var.ok /\ var.p = Len(v) + 1 IN      \* the value is exactly one varint
+\* One parameter (identifier id, declared length len, value starting at index vp) applied to the
+\* accumulator: [ok, tp, p = index of the next parameter].
+\*   q = FALSE  the RFC: the value is exactly the len bytes that follow (7.4, 18); an integer is one
+\*              varint filling them, on any of its legal sizes (16)
+\*   q = TRUE   the deviation of TransportParameters::read recorded as the known finding
+\*              "TransportParameterLengthNotEnforced": integers are read from the rest of the whole
+\*              buffer and len is compared with the canonical size of the value (not with the bytes
+\*              read), max_datagram_frame_size and min_ack_delay ignore len, preferred_address
+\*              leaves unread trailing bytes to be parsed as the next parameter
+TpApply(tp, id, bs, vp, len, q) ==
+  LET v == SubSeq(bs, vp, vp + len - 1)
+      var == IF q THEN DecVar(bs, vp) ELSE DecVar(v, 1)
+      whole == var.ok /\ (IF q THEN TRUE ELSE var.p = len + 1)      \* the value is exactly one varint
+      np == IF q /\ var.ok THEN var.p ELSE vp + len
+      Ok(t) == [ok |-> TRUE, tp |-> t, p |-> vp + len] IN
   IF Small(id) /\ id[2] \in {1, 3, 4, 5, 6, 7, 8, 9, 10, 11, 14} THEN
-    IF ~whole THEN Fail ELSE [ok |-> TRUE, tp |-> [tp EXCEPT !.ints[IntIndex(id[2])] = var.v]]
-  ELSE IF id = N(32) THEN IF ~whole THEN Fail ELSE [ok |-> TRUE, tp |-> [tp EXCEPT !.mdfs = <<var.v>>]]
-  ELSE IF id = IdMinAckDelay THEN IF ~whole THEN Fail ELSE [ok |-> TRUE, tp |-> [tp EXCEPT !.mad = <<var.v>>]]
-  ELSE IF id = N(0) THEN IF Len(v) > 20 THEN Fail ELSE [ok |-> TRUE, tp |-> [tp EXCEPT !.odcid = <<v>>]]
-  ELSE IF id = N(15) THEN IF Len(v) > 20 THEN Fail ELSE [ok |-> TRUE, tp |-> [tp EXCEPT !.iscid = <<v>>]]
-  ELSE IF id = N(16) THEN IF Len(v) > 20 THEN Fail ELSE [ok |-> TRUE, tp |-> [tp EXCEPT !.rscid = <<v>>]]
-  ELSE IF id = N(2) THEN IF Len(v) # 16 THEN Fail ELSE [ok |-> TRUE, tp |-> [tp EXCEPT !.srt = <<v>>]]
-  ELSE IF id = N(12) THEN IF Len(v) # 0 THEN Fail ELSE [ok |-> TRUE, tp |-> [tp EXCEPT !.dam = TRUE]]
-  ELSE IF id = N(IdGrease) THEN IF Len(v) # 0 THEN Fail ELSE [ok |-> TRUE, tp |-> [tp EXCEPT !.grease = TRUE]]
+    IF ~whole \/ (q /\ len # VSize(var.v)) THEN Fail
+    ELSE [ok |-> TRUE, tp |-> [tp EXCEPT !.ints[IntIndex(id[2])] = var.v], p |-> np]
+  ELSE IF id = N(32) THEN
+    IF ~whole \/ (q /\ len > 8) THEN Fail ELSE [ok |-> TRUE, tp |-> [tp EXCEPT !.mdfs = <<var.v>>], p |-> np]
+  ELSE IF id = IdMinAckDelay THEN
+    IF ~whole THEN Fail ELSE [ok |-> TRUE, tp |-> [tp EXCEPT !.mad = <<var.v>>], p |-> np]
+  ELSE IF id = N(0) THEN IF len > 20 THEN Fail ELSE Ok([tp EXCEPT !.odcid = <<v>>])
+  ELSE IF id = N(15) THEN IF len > 20 THEN Fail ELSE Ok([tp EXCEPT !.iscid = <<v>>])
+  ELSE IF id = N(16) THEN IF len > 20 THEN Fail ELSE Ok([tp EXCEPT !.rscid = <<v>>])
+  ELSE IF id = N(2) THEN IF len # 16 THEN Fail ELSE Ok([tp EXCEPT !.srt = <<v>>])
+  ELSE IF id = N(12) THEN IF len # 0 THEN Fail ELSE Ok([tp EXCEPT !.dam = TRUE])
+  ELSE IF id = N(IdGrease) THEN IF len # 0 THEN Fail ELSE Ok([tp EXCEPT !.grease = TRUE])
   ELSE IF id = N(13) THEN
-    LET a == DecPrefAddr(v) IN IF ~a.ok THEN Fail ELSE [ok |-> TRUE, tp |-> [tp EXCEPT !.pa = <<a.pa>>]]
-  ELSE [ok |-> TRUE, tp |-> tp]                   \* unknown parameters are ignored (7.4.2)
+    LET used == IF q /\ len >= 25 /\ v[25] <= 20 /\ len >= 41 + v[25] THEN 41 + v[25] ELSE len
+        a == DecPrefAddr(SubSeq(v, 1, used)) IN
+    IF ~a.ok THEN Fail ELSE [ok |-> TRUE, tp |-> [tp EXCEPT !.pa = <<a.pa>>], p |-> vp + used]
+  ELSE Ok(tp)                                       \* unknown parameters are ignored (7.4.2)
 TpKnown(id) == id \in {N(0), N(1), N(2), N(3), N(4), N(5), N(6), N(7), N(8), N(9), N(10), N(11), N(12), N(13),
                        N(14), N(15), N(16), N(32), N(IdGrease), IdMinAckDelay}
 
-RECURSIVE DecTpFrom(_, _, _, _, _)
-DecTpFrom(bs, p, tp, seen, lax) ==
+\* [ok, tp, lax].  `lax` marks inputs whose treatment the RFC leaves open (a repeated parameter
+\* "SHOULD" be an error, 7.4): repetitions of the two parameters the implementation does not track.
+RECURSIVE DecTpFrom(_, _, _, _, _, _)
+DecTpFrom(bs, p, tp, seen, lax, q) ==
   IF p > Len(bs) THEN [ok |-> TRUE, tp |-> tp, lax |-> lax]
   ELSE LET h == DecVar(bs, p) IN
        IF ~h.ok THEN [ok |-> FALSE, lax |-> lax]
-       ELSE LET d == TakeLen(bs, h.p) IN
+       ELSE LET d == DecVar(bs, h.p) IN
             IF ~d.ok THEN [ok |-> FALSE, lax |-> lax]
-            ELSE IF TpKnown(h.v) /\ h.v \in seen THEN
-              \* repeated parameter: error for all but the two the implementation may accept
-              IF h.v \in {N(IdGrease), IdMinAckDelay} THEN
-                LET a == TpApply(tp, h.v, d.d) IN
-                IF ~a.ok THEN [ok |-> FALSE, lax |-> TRUE] ELSE DecTpFrom(bs, d.p, a.tp, seen, TRUE)
-              ELSE [ok |-> FALSE, lax |-> lax]
-            ELSE LET a == TpApply(tp, h.v, d.d) IN
-                 IF ~a.ok THEN [ok |-> FALSE, lax |-> lax]
-                 ELSE DecTpFrom(bs, d.p, a.tp, seen \cup {h.v}, lax)
+            ELSE IF ~Small(d.v) \/ d.v[2] > Len(bs) - d.p + 1 THEN [ok |-> FALSE, lax |-> lax]
+            ELSE LET rep == TpKnown(h.v) /\ h.v \in seen
+                     soft == rep /\ h.v \in {N(IdGrease), IdMinAckDelay} IN
+              IF rep /\ ~soft THEN [ok |-> FALSE, lax |-> lax]
+              ELSE LET a == TpApply(tp, h.v, bs, d.p, d.v[2], q) IN
+                   IF ~a.ok THEN [ok |-> FALSE, lax |-> lax \/ soft]
+                   ELSE DecTpFrom(bs, a.p, a.tp, seen \cup {h.v}, lax \/ soft, q)
 
 \* semantic validation (18.2, 4.6, 7.4, ack-frequency draft); side = the reader: "server" reads
 \* a client's parameters, which must not contain the server-only ones
@@ -358,10 +373,12 @@ TpLegal(tp, side) ==
   /\ (tp.mad = <<>> \/ NLe(tp.mad[1], N(i[10][2] * 1000)))
   /\ (side = "server" => tp.odcid = <<>> /\ tp.pa = <<>> /\ tp.rscid = <<>> /\ tp.srt = <<>>)
   /\ (tp.pa = <<>> \/ (tp.pa[1].cid # <<>> /\ (tp.pa[1].v4 # <<>> \/ tp.pa[1].v6 # <<>>)))
-DecTp(bs, side) ==
-  LET r == DecTpFrom(bs, 1, TpDefault, {}, FALSE) IN
+DecTpQ(bs, side, q) ==
+  LET r == DecTpFrom(bs, 1, TpDefault, {}, FALSE, q) IN
   IF ~r.ok THEN r
   ELSE IF ~TpLegal(r.tp, side) THEN [ok |-> FALSE, lax |-> r.lax] ELSE r
+DecTp(bs, side) == DecTpQ(bs, side, FALSE)
+DecTpSyntax(bs) == DecTpFrom(bs, 1, TpDefault, {}, FALSE, FALSE)
 
 \* canonical encoder: ascending order of the list below, integer parameters only when they differ
 \* from the default.  Any order is legal on the wire; the trace spec compares decoded values.
@@ -385,13 +402,17 @@ EncTp(tp) ==
 \* ------------------------------------------- packet headers, RFC 9000 section 17
 \* Invariant part and the version 1 long header types.  DecHeader yields the header fields known
 \* before header protection is removed and `total`, the number of bytes of the datagram that
-\* belong to this packet (the coalescing boundary, 12.2).
+\* belong to this packet (the coalescing boundary, 12.2), and `pnoff`, the index of the first byte
+\* after the fields decoded here (the packet number, if the packet has one).
 \*   cidLen = length of locally issued connection IDs (short headers), versions = supported
 \*   versions (each 4 bytes), grease = the fixed bit may be clear (RFC 9287)
 DecCidLong(bs, p) ==
   IF p > Len(bs) THEN Fail
   ELSE IF bs[p] > 20 THEN Fail ELSE TakeFix(bs, p + 1, bs[p])
-DecHeader(bs, cidLen, versions, grease) ==
+\*   q = TRUE: the deviation recorded as the known finding "VersionNegotiationWithoutFixedBitDropped":
+\*   the fixed bit is demanded of Version Negotiation packets too, whose low seven bits are unused
+\*   and "MUST be ignored" by the client (17.2.1)
+DecHeaderQ(bs, cidLen, versions, grease, q) ==
   IF bs = <<>> THEN Fail
   ELSE LET first == bs[1] IN
   IF first < 128 THEN
@@ -408,13 +429,14 @@ DecHeader(bs, cidLen, versions, grease) ==
     IF ~d.ok THEN Fail
     ELSE LET s == DecCidLong(bs, d.p) IN
     IF ~s.ok THEN Fail
+    ELSE IF q /\ ~grease /\ (first \div 64) % 2 = 0 THEN Fail
     ELSE IF v.d = <<0, 0, 0, 0>> THEN
       \* version negotiation: the remaining bits of the first byte are unused (17.2.1)
-      [ok |-> TRUE, kind |-> "vn", dcid |-> d.d, scid |-> s.d, random |-> first % 128, total |-> Len(bs)]
+      [ok |-> TRUE, kind |-> "vn", dcid |-> d.d, scid |-> s.d, random |-> first % 128, pnoff |-> s.p, total |-> Len(bs)]
     ELSE IF v.d \notin versions THEN Fail
     ELSE IF ~grease /\ (first \div 64) % 2 = 0 THEN Fail
     ELSE LET ty == (first \div 16) % 4 IN
-      IF ty = 3 THEN [ok |-> TRUE, kind |-> "retry", version |-> v.d, dcid |-> d.d, scid |-> s.d, total |-> Len(bs)]
+      IF ty = 3 THEN [ok |-> TRUE, kind |-> "retry", version |-> v.d, dcid |-> d.d, scid |-> s.d, pnoff |-> s.p, total |-> Len(bs)]
       ELSE LET tok == IF ty = 0 THEN TakeLen(bs, s.p) ELSE [ok |-> TRUE, d |-> <<>>, p |-> s.p] IN
         IF ~tok.ok THEN Fail
         ELSE LET ln == DecVar(bs, tok.p) IN
@@ -424,14 +446,17 @@ DecHeader(bs, cidLen, versions, grease) ==
                 version |-> v.d, dcid |-> d.d, scid |-> s.d, token |-> tok.d, len |-> ln.v[2],
                 pnoff |-> ln.p, total |-> ln.p - 1 + ln.v[2]]
 
+DecHeader(bs, cidLen, versions, grease) == DecHeaderQ(bs, cidLen, versions, grease, FALSE)
+
 \* the packets coalesced in one datagram: [ok, pkts]; on error pkts holds those before the bad one
-RECURSIVE SplitFrom(_, _, _, _, _)
-SplitFrom(bs, cidLen, versions, grease, acc) ==
+RECURSIVE SplitFrom(_, _, _, _, _, _)
+SplitFrom(bs, cidLen, versions, grease, acc, q) ==
   IF bs = <<>> THEN [ok |-> TRUE, pkts |-> acc]
-  ELSE LET h == DecHeader(bs, cidLen, versions, grease) IN
+  ELSE LET h == DecHeaderQ(bs, cidLen, versions, grease, q) IN
        IF ~h.ok THEN [ok |-> FALSE, pkts |-> acc]
-       ELSE SplitFrom(SubSeq(bs, h.total + 1, Len(bs)), cidLen, versions, grease, Append(acc, h))
-Split(bs, cidLen, versions, grease) == SplitFrom(bs, cidLen, versions, grease, <<>>)
+       ELSE SplitFrom(SubSeq(bs, h.total + 1, Len(bs)), cidLen, versions, grease, Append(acc, h), q)
+SplitQ(bs, cidLen, versions, grease, q) == SplitFrom(bs, cidLen, versions, grease, <<>>, q)
+Split(bs, cidLen, versions, grease) == SplitQ(bs, cidLen, versions, grease, FALSE)
 
 \* header encoders.  pn = truncated packet number bytes (1..4); the length field of long headers
 \* is written on two bytes (legal: 16 "values do not need to be encoded on the minimum number of
@@ -446,11 +471,20 @@ EncShort(spin, keyPhase, dcid, pn, rest) ==
 EncRetry(version, dcid, scid, rest) == <<240>> \o version \o EncCidLong(dcid) \o EncCidLong(scid) \o rest
 EncVn(random, dcid, scid, rest) == <<128 + random>> \o <<0, 0, 0, 0>> \o EncCidLong(dcid) \o EncCidLong(scid) \o rest
 
+\* a packet description [kind, version, dcid, scid, token, n, la, rest, spin, kp, random] on the wire
+KindTy == [initial |-> 0, zerortt |-> 1, handshake |-> 2]
+EncPkt(pk) ==
+  IF pk.kind \in DOMAIN KindTy THEN EncLong(KindTy[pk.kind], pk.version, pk.dcid, pk.scid, pk.token, Truncate(pk.n, pk.la), pk.rest)
+  ELSE IF pk.kind = "short" THEN EncShort(pk.spin, pk.kp, pk.dcid, Truncate(pk.n, pk.la), pk.rest)
+  ELSE IF pk.kind = "retry" THEN EncRetry(pk.version, pk.dcid, pk.scid, pk.rest)
+  ELSE EncVn(pk.random, pk.dcid, pk.scid, pk.rest)
+RECURSIVE EncPkts(_)
+EncPkts(ps) == IF ps = <<>> THEN <<>> ELSE EncPkt(Head(ps)) \o EncPkts(Tail(ps))
 \* after header protection is removed: packet number length from the low two bits, the truncated
 \* packet number, header length.  sample = 4 + sample size bytes must follow the pn offset (5.4.2)
 DecPn(bs, pnoff, sample) ==
   IF Len(bs) < pnoff - 1 + sample THEN Fail
-  ELSE LET k == 1 + bs[1] % 4 IN
+  ELSE LET k == 1 + (bs[1] % 4) IN
        [ok |-> TRUE, pn |-> SubSeq(bs, pnoff, pnoff + k - 1), hlen |-> pnoff + k - 1]
 
 \* ------------------------------------------------ address validation token plaintext
